@@ -14,7 +14,7 @@ ID = 'C09'
 TITLE = 'xref aliasing, order independence, termination'
 RULE = ('data nodes (scalars, lists, mappings, !call producing fresh objects) spread over 1-3 documents and up to 12 (chain mode: 30) '
         '!xref/!ref nodes at top level, inside a mapping, inside a list and inside call arguments, each pointing to a data node, an element '
-        'inside a container, a value that evaluates to something falsy, another reference, a later-defined path, a missing path, itself, its own '
+        'inside a container, a value that evaluates to something falsy, another reference, a later-defined path, a missing path (also one that would be a valid subscript of the evaluated value of its prefix), itself, its own '
         'container or closing a cycle; optionally a previous build with the same EvalContext; '
         'non-trivial = identity checked on a fresh mutable target through a chain of length >=2 or with fan-in >=2, or the graph has a '
         'cycle / dangling edge; distinct = hash of the case.  Every build runs under a budget of %d line events.' % 400000)
@@ -25,7 +25,7 @@ ASSUMPTIONS = ['reference paths that run through another reference are not gener
                '"never hangs" is decided as: terminates within 5000000 traced line events inside the package (largest terminating case observed: about 130000 for a chain of 30)']
 
 DATA_TARGETS = [['d1'], ['d2'], ['d2', 0], ['d2', 1], ['d2', 1, 'k'], ['d3'], ['d3', 'm'], ['d3', 'm', 'n'], ['d3', 'l'], ['d3', 'l', 1], ['f1'], ['f2'],
-                ['box'], ['arr'], ['box', 'v'], ['e1'], ['e2'], ['d3', 'z'], ['e0']]
+                ['box'], ['arr'], ['box', 'v'], ['e1'], ['e2'], ['d3', 'z'], ['e0'], ['s1']]
 # e1: [], e2: {}, d3.z: [] and e0: 0.0 evaluate to falsy values (an "is it cached" test must not confuse them with "not cached")
 MUTABLE = {('d2',), ('d2', 1), ('d3',), ('d3', 'm'), ('d3', 'l'), ('f1',), ('f2',), ('box',), ('arr',), ('e1',), ('e2',), ('d3', 'z')}
 
@@ -81,10 +81,12 @@ def _case(draw):
             elif kind == 'missing':
                 s['to'] = [draw(st.sampled_from(['nope', 'd9']))]
             elif kind == 'deepmissing':
-                s['to'] = draw(st.sampled_from([['d1', 'x'], ['d2', 7], ['d3', 'm', 'zz'], ['box', 'none']]))
+                # the last four are not nodes of the config although the *evaluated* value of their prefix could be subscripted that way
+                s['to'] = draw(st.sampled_from([['d1', 'x'], ['d2', 7], ['d3', 'm', 'zz'], ['box', 'none'],
+                                                ['s1', 0], ['s1', -1], ['f1', 'called'], ['f1', 'kw']]))
             else:
                 s['to'] = s['path']
-    order = draw(st.permutations(['d1', 'd2', 'd3', 'f1', 'f2', 'box', 'arr', 'e1', 'e2', 'e0'] + [s['path'][0] for s in slots if len(s['path']) == 1]))
+    order = draw(st.permutations(['d1', 'd2', 'd3', 'f1', 'f2', 'box', 'arr', 'e1', 'e2', 'e0', 's1'] + [s['path'][0] for s in slots if len(s['path']) == 1]))
     ndocs = draw(st.integers(1, 3))
     split = [draw(st.integers(0, ndocs - 1)) for _ in order]
     return {'slots': slots, 'order': list(order), 'split': split, 'ndocs': ndocs, 'prebuild': draw(st.integers(0, 2)) == 0}
@@ -103,7 +105,7 @@ def docs(case):
         'd1': tdoc.sc(5),
         'd2': tdoc.sq([tdoc.sc(1), tdoc.mp([('k', tdoc.sc(2))], flow=True)], flow=True),
         'd3': tdoc.mp([('m', tdoc.mp([('n', tdoc.sc(3))], flow=True)), ('l', tdoc.sq([tdoc.sc(4), tdoc.sc(5)], flow=True)), ('z', tdoc.sq([], flow=True))]),
-        'e1': tdoc.sq([], flow=True), 'e2': tdoc.mp([], flow=True), 'e0': tdoc.sc(0.0),
+        'e1': tdoc.sq([], flow=True), 'e2': tdoc.mp([], flow=True), 'e0': tdoc.sc(0.0), 's1': tdoc.sc('resnet'),
         'f1': tdoc.mp([], flow=True, tag='!call:vfrec.call_1'),
         'f2': tdoc.mp([('x', tdoc.sc(0))] + [(s['path'][1], ref(s)) for s in slots if s['path'][0] == 'f2'], tag='!call:vfrec.call_2'),
         'box': tdoc.mp([('v', tdoc.sc(8))] + [(s['path'][1], ref(s)) for s in slots if s['path'][0] == 'box']),
@@ -123,7 +125,7 @@ def analyse(case):
     slots = {tuple(s['path']): tuple(s['to']) for s in case['slots']}
     narr = sum(1 for s in case['slots'] if s['path'][0] == 'arr')
     data = {('d1',), ('d2',), ('d2', 0), ('d2', 1), ('d2', 1, 'k'), ('d3',), ('d3', 'm'), ('d3', 'm', 'n'), ('d3', 'l'), ('d3', 'l', 0), ('d3', 'l', 1),
-            ('f1',), ('f2',), ('f2', 'x'), ('box',), ('box', 'v'), ('arr',), ('arr', narr), ('e1',), ('e2',), ('e0',), ('d3', 'z')}
+            ('f1',), ('f2',), ('f2', 'x'), ('box',), ('box', 'v'), ('arr',), ('arr', narr), ('e1',), ('e2',), ('e0',), ('d3', 'z'), ('s1',)}
     children = {}
     for p in list(data) + list(slots):
         for i in range(1, len(p)):
